@@ -11,7 +11,7 @@ func main() {
 		// metaDataCollector.Filter: the start values and the two per-ID updates of the recomputed MID range
 		xlate.Spec{Pkg: "frac", Recv: "metaDataCollector", Name: "Filter", As: "filterMinInit", Stmts: []string{"c.MinMID = math.MaxUint64"}},
 		xlate.Spec{Pkg: "frac", Recv: "metaDataCollector", Name: "Filter", As: "filterMaxInit", Stmts: []string{"c.MaxMID = 0"}},
-		xlate.Spec{Pkg: "frac", Recv: "metaDataCollector", Name: "Filter", As: "filterMinStep", Stmts: []string{"if id.MID < c.MinMID"}, Result: "c.MinMID"},
-		xlate.Spec{Pkg: "frac", Recv: "metaDataCollector", Name: "Filter", As: "filterMaxStep", Stmts: []string{"if id.MID > c.MaxMID"}, Result: "c.MaxMID"},
+		xlate.Spec{Pkg: "frac", Recv: "metaDataCollector", Name: "Filter", As: "filterMinStep", Stmts: []string{"if id.MID <"}, Result: "c.MinMID"},
+		xlate.Spec{Pkg: "frac", Recv: "metaDataCollector", Name: "Filter", As: "filterMaxStep", Stmts: []string{"if id.MID >"}, Result: "c.MaxMID"},
 	)
 }
